@@ -2,10 +2,14 @@
 (* Case generator for C13: one JSON object per shape: kind, field states, the verdict   *)
 (* of Layer P ("accept" | "reject" | "gray") and of the loaders' model ("acc" | "rej"). *)
 EXTENDS ConfM, Json
-CONSTANTS Kinds, MaxDev
+CONSTANTS Kinds, MaxDev,
+          InitPos   \* TRUE: start from the shapes whose subject element is not alone (every position x every other state)
 
 VARIABLES g, fin
-GInit == fin = FALSE /\ \E kk \in Kinds : g \in {[k |-> kk, s |-> sh, n |-> 1] : sh \in Shapes(kk, 1)}
+PosFields == {"sPos", "tPos"}
+Start(kk) == IF InitPos THEN {sh \in Shapes(kk, 1) : \E f \in PosFields \cap FieldSet(kk) : sh[f] # "only"}
+             ELSE Shapes(kk, 1)
+GInit == fin = FALSE /\ \E kk \in Kinds : g \in {[k |-> kk, s |-> sh, n |-> 1] : sh \in Start(kk)}
 GNext == /\ ~fin
          /\ \/ /\ g.n < MaxDev
                /\ \E sh \in Extend(g.k, g.s) : g' = [k |-> g.k, s |-> sh, n |-> g.n + 1]
